@@ -173,10 +173,13 @@ impl DocumentBuilder<'_> {
 
         // Extensions can add new `implements` clauses but must not
         // duplicate prior picks or overwrite a field signature the
-        // type already commits to. Objects can't appear in the
-        // interface graph, so no cycle protection is needed.
+        // type already commits to. Passing the object's name lets
+        // `additional_implements` see the interfaces the object already
+        // implements. No interface implements an object, so the cycle
+        // check it also enables never fires.
         let existing_field_signatures = field_signatures_for(&self.object_type_defs, &name);
-        let implements_interfaces = self.additional_implements(&existing_field_signatures, None)?;
+        let implements_interfaces =
+            self.additional_implements(&existing_field_signatures, Some(&name))?;
         let exclude_fields: IndexSet<Name> = existing_field_signatures
             .keys()
             .map(|k| Name::new(k.clone()))
